@@ -87,6 +87,8 @@ func checkC19(c *an.Ctx) {
 		c.Check(len(muts) == 0, "C19.1", an.Short(fn)+":buffer", fn.Pos(), "leaves the caller's buffer alone", "Write "+strings.Join(muts, "; ")+": bytes of the task's output are lost, duplicated or corrupted")
 	}
 
+	writerContract(c, "C19.1")
+
 	lineWriterRule(c, "C19.2")
 	prefixedForwarding(c, "C19.3")
 	finishWithoutStart(c, "C19.4")
@@ -1187,4 +1189,81 @@ func reachesField(p *an.Prog, v ssa.Value, field string, depth int) bool {
 		}
 	}
 	return false
+}
+
+// writerContract checks the io.Writer contract for every Write method of the
+// module (a task's bytes pass through several of them — decorators, the
+// executor's capture buffer — and io.MultiWriter stops at the first writer
+// that reports a short count): a return without an error reports len(p), and
+// a return that hands on the (n, err) of an inner write does so for a write
+// of the whole argument, not of a part of it.
+func writerContract(c *an.Ctx, rule string) {
+	p := c.P
+	n := 0
+	for _, fn := range p.Funcs {
+		if fn.Name() != "Write" || fn.Signature.Recv() == nil || fn.Parent() != nil || !an.InModule(fn) {
+			continue
+		}
+		sig := fn.Signature
+		if sig.Params().Len() != 1 || sig.Results().Len() != 2 || !an.IsErrorType(sig.Results().At(1).Type()) {
+			continue
+		}
+		if sl, ok := sig.Params().At(0).Type().Underlying().(*types.Slice); !ok || sl.Elem().String() != "byte" {
+			continue
+		}
+		n++
+		param := fn.Params[len(fn.Params)-1]
+		isLenP := func(v ssa.Value) bool {
+			srcs := an.Sources(v)
+			if len(srcs) == 0 {
+				return false
+			}
+			for _, src := range srcs {
+				call, ok := src.(*ssa.Call)
+				if !ok {
+					return false
+				}
+				b, ok := call.Call.Value.(*ssa.Builtin)
+				if !ok || b.Name() != "len" || call.Call.Args[0] != ssa.Value(param) {
+					return false
+				}
+			}
+			return true
+		}
+		bad := ""
+		for _, ret := range an.Returns(fn) {
+			cnt, errv := an.RetVal(ret, 0), an.RetVal(ret, 1)
+			if isLenP(cnt) {
+				continue
+			}
+			if an.IsNilConst(errv) {
+				bad = fmt.Sprintf("returns a count other than len(p) (%s) with a nil error at %s", an.Prov(cnt), p.Pos(ret.Pos()))
+				continue
+			}
+			ce, ok1 := cnt.(*ssa.Extract)
+			ee, ok2 := errv.(*ssa.Extract)
+			if ok1 && ok2 && ce.Tuple == ee.Tuple && ce.Index == 0 {
+				if call, ok := ce.Tuple.(*ssa.Call); ok {
+					whole := false
+					for _, a := range call.Call.Args {
+						if a.Type() == param.Type() || types.Identical(a.Type(), param.Type()) {
+							whole = true
+							for _, src := range an.Sources(a) {
+								if src != ssa.Value(param) {
+									whole = false
+								}
+							}
+						}
+					}
+					if !whole {
+						bad = fmt.Sprintf("hands on the count of an inner write of something other than its whole argument (%s) at %s: a short count without an error stops io.MultiWriter before the writers that follow", an.ShortCallee(&call.Call), p.Pos(ret.Pos()))
+					}
+				}
+			}
+		}
+		c.Check(bad == "", rule, an.Short(fn)+":io.Writer-contract", fn.Pos(), "every error-free return reports len(p); forwarded counts are those of a write of the whole argument", an.Short(fn)+" "+bad)
+	}
+	if n == 0 {
+		c.Und(rule, "module:Write-methods", token.NoPos, "no Write method found in the module")
+	}
 }
